@@ -9,8 +9,10 @@
    * numbers, arrays and functions are opaque tokens; values computed by numpy (derived matrices, results of evaluated
      callables, sums of constants) are the wildcard token `VTok (-1)`: the model decides WHERE something is written and
      what is shared by reference, not the numeric value (that is C01/C04);
-   * cache fields (`_mutable_vars`, `_variable_name`, and the `_geometry` slot, whose default geometry is lazily inferred
-     from the parameters) are not part of an object's denotation; geometry is covered behaviourally by the harness only;
+   * cache fields (`_mutable_vars`, and `_variable_name` of a geometry, re-synchronised with the distribution's name on every
+     read) are not part of an object's denotation.  Geometry objects ARE heap objects and the `_geometry` slot is a semantic
+     field; the only identification made (`norm_obj`, `den_g`) is that for a distribution without unresolved parameters a
+     default geometry that is still unset and the default geometry lazily inferred from the parameters read the same;
    * the `_Gaussian` of a Lognormal is a scratch object re-synchronised by the `_normal` getter before every read. *)
 From CV Require Import Base.Tac.
 From Coq Require String Ascii.
@@ -83,7 +85,7 @@ Definition class_at (h : heap) (l : loc) : string := match get h l with Some o =
 
 (* ---------- what an object's denotation reads ---------- *)
 Definition is_cache (f : string) : bool :=
-  str_eqb f "_mutable_vars" || str_eqb f "_variable_name" || str_eqb f "_geometry".
+  str_eqb f "_mutable_vars" || str_eqb f "_variable_name".
 (* objects the denotation of a density / model never reads through: the re-synchronised inner Gaussian of a Lognormal
    ("Scratch.<class>") and sampler objects ("Sampler.<class>": block samplers held by a Gibbs sampler; they REFER to
    conditioned copies as their targets, no density refers to them) *)
@@ -289,6 +291,36 @@ Definition to_likelihood (hints : list (string * list string)) (h : heap) (d : l
     end
   end.
 
+Definition default_geom_at (h : heap) (g : loc) : bool := String.prefix "_DefaultGeometry" (class_at h g).
+Definition unset_geom_at (h : heap) (g : loc) : bool :=
+  default_geom_at h g && match getattr h g "_grid" with Some VNone => true | _ => false end.
+
+
+(* Distribution.geometry: (1) if the geometry is an unset default and a dimension can be inferred (`dim` = Some grid) a
+   fresh default geometry is assigned to self; (2) if the distribution has a name it is written into the geometry object *)
+Definition geometry_getter (h : heap) (l : loc) (dim : option value) : heap :=
+  match get h l with
+  | None => h
+  | Some o =>
+    match getf o "_geometry" with
+    | Some (VRef g) =>
+      let '(h1, g1) :=
+        match dim with
+        | Some d => if unset_geom_at h g
+                    then let '(h', gn) := alloc h [("__class__", VStr "_DefaultGeometry1D"); ("_grid", d); ("axis_labels", VNone)] in
+                         (setattr h' l "_geometry" (VRef gn), gn)
+                    else (h, g)
+        | None => (h, g)
+        end in
+      match getf o "_name" with
+      | Some (VStr s) => setattr h1 g1 "_variable_name" (VStr s)
+      | _ => h1
+      end
+    | _ => h
+    end
+  end.
+
+
 Section Cond.
 Variable hints : list (string * list string).
 Variable inplace : bool.          (* the code contains `density._constant += ...` (augmented assignment) *)
@@ -387,6 +419,23 @@ Definition is_dist_at (h : heap) (l : loc) : bool := negb (is_nondist_class (cla
 Definition is_lik_at (h : heap) (l : loc) : bool := str_eqb (class_at h l) "Likelihood".
 Definition is_ed_at (h : heap) (l : loc) : bool := str_eqb (class_at h l) "EvaluatedDensity".
 
+(* Likelihood.model.domain_geometry: the first mutable variable of the data distribution that is a Model *)
+Definition lik_domain_geometry (h : heap) (lk : loc) : option loc :=
+  match getattr h lk "distribution" with
+  | Some (VRef d) =>
+    match get h d with
+    | Some od =>
+      match filter (fun k => match read_var od k with VRef m => is_model_class (class_at h m) | _ => false end) (mutable_vars hints od) with
+      | k :: _ => match read_var od k with
+                  | VRef m => match getattr h m "domain_geometry" with Some (VRef g) => Some g | _ => None end
+                  | _ => None end
+      | [] => None
+      end
+    | None => None
+    end
+  | _ => None
+  end.
+
 (* JointDistribution._reduce_to_single_density on the new joint nj with factor list rs *)
 Definition reduce (h : heap) (nj : loc) (rs : list loc) : option (heap * loc) :=
   let nd := count_if (is_dist_at h) rs in
@@ -394,15 +443,28 @@ Definition reduce (h : heap) (nj : loc) (rs : list loc) : option (heap * loc) :=
   let has_ed := Nat.ltb 0 (count_if (is_ed_at h) rs) in
   if Nat.ltb 1 nd then Some (h, nj)
   else if Nat.eqb nd 1 && Nat.ltb 1 nl then
-    Some (alloc h [("__class__", VStr "MultipleLikelihoodPosterior"); ("_densities", VList rs)])
+    (* MultipleLikelihoodPosterior of the densities: JointDistribution.__init__ refuses parameters without a prior *)
+    let names := flat_map (fun f => if is_dist_at h f then match name_of 50 h f with Some s => [s] | None => ["?"] end else []) rs in
+    if forallb (fun f => forallb (fun p => mem_str p names) (param_names 50 h f)) rs
+    then Some (alloc h [("__class__", VStr "MultipleLikelihoodPosterior"); ("_densities", VList rs)])
+    else None
   else if Nat.eqb nd 1 && Nat.eqb nl 1 then
     match filter (is_lik_at h) rs, filter (is_dist_at h) rs with
     | lk :: _, d :: _ =>
       if negb (same_set (param_names 50 h lk) (param_names 50 h d)) then Some (h, nj)
       else if negb (Nat.eqb (length (param_names 50 h lk)) 1) then None     (* Posterior.__init__ refuses *)
       else
-        let '(h1, p) := alloc h [("__class__", VStr "Posterior"); ("_FD_enabled", VNum 0); ("_FD_epsilon", VNone);
-                                 ("_constant", VNum 0); ("_geometry", VNone); ("_name", VNone); ("_original_density", VNone);
+        (* Posterior.geometry setter: reads prior.geometry (getter: lazy default + name), then takes the model's domain
+           geometry if it is not a default one, else the prior's *)
+        let hq := geometry_getter h d (Some wild) in
+        let geom := match lik_domain_geometry hq lk with
+                    | Some gd => if default_geom_at hq gd
+                                 then match getattr hq d "_geometry" with Some v => v | None => VNone end
+                                 else VRef gd
+                    | None => match getattr hq d "_geometry" with Some v => v | None => VNone end
+                    end in
+        let '(h1, p) := alloc hq [("__class__", VStr "Posterior"); ("_FD_enabled", VNum 0); ("_FD_epsilon", VNone);
+                                 ("_constant", VNum 0); ("_geometry", geom); ("_name", VNone); ("_original_density", VNone);
                                  ("is_symmetric", VNone); ("likelihood", VRef lk); ("prior", VRef d)] in
         Some (add_constants h1 p has_ed, p)
     | _, _ => None
@@ -463,6 +525,8 @@ Fixpoint cond (fuel : nat) (h : heap) (self : loc) (kw : list (string * value)) 
         (* Distribution._condition *)
         let mv := mutable_vars hints o in
         let cv := cond_vars hints h o in
+        if existsb (fun key => mem_str key mv && negb (mem_str key cv)) (keys kw) then None   (* "not a conditioning variable" *)
+        else
         let '(h1, n) := make_copy h self in
         match cond_loop (fun hh d => cond k hh d []) h1 self n o kw mv [] with
         | None => None
@@ -492,8 +556,9 @@ End Cond.
 
 (* Model.forward(distribution): shallow copy with renamed argument *)
 Definition model_apply (h : heap) (m d : loc) : option (heap * loc) :=
-  match name_of 50 h d with
-  | Some nm => let '(h1, n) := py_copy h m in Some (setattr h1 n "_non_default_args" (VStrs [nm]), n)
+  let hq := geometry_getter h d (Some wild) in          (* `x.dim != self.domain_dim` reads the distribution's geometry *)
+  match name_of 50 hq d with
+  | Some nm => let '(h1, n) := py_copy hq m in Some (setattr h1 n "_non_default_args" (VStrs [nm]), n)
   | None => None
   end.
 
@@ -576,16 +641,20 @@ Fixpoint nmatch (fuel : nat) (m o : nview) : bool :=
     end
   end.
 
-(* old part: semantic fields equal as finite maps, with wildcard matching *)
-Definition omatch (m o : obj) : bool :=
-  Nat.eqb (length m) (length o) &&
-  forallb (fun fv => match getf o (fst fv) with Some w => vmatch (snd fv) w | None => false end) m.
-Fixpoint old_match (n0 : nat) (hm ho : heap) : bool :=
-  match n0, hm, ho with
+(* old part: semantic fields equal as finite maps, with wildcard matching; references from an old object to NEW objects
+   (a lazily assigned default geometry) are compared structurally, not by number *)
+Definition nview_obj (n0 : nat) (h : heap) (o : obj) : nview :=
+  NObj (map (fun fv => (fst fv, match snd fv with
+                                 | VRef l' => nview_of 10 n0 h l'
+                                 | VList ls => NList (map (nview_of 10 n0 h) ls)
+                                 | v => NV v end)) (sem_obj o)).
+Fixpoint old_match_from (n0 : nat) (hm ho : heap) (k : nat) (rm ro : heap) : bool :=
+  match k, rm, ro with
   | O, _, _ => true
-  | S k, m :: rm, o :: ro => omatch (sem_obj m) (sem_obj o) && old_match k rm ro
+  | S k', m :: rm', o :: ro' => nmatch 40 (nview_obj n0 hm m) (nview_obj n0 ho o) && old_match_from n0 hm ho k' rm' ro'
   | _, _, _ => false
   end.
+Definition old_match (n0 : nat) (hm ho : heap) : bool := old_match_from n0 hm ho n0 hm ho.
 
 Definition check_result (n0 : nat) (mres : option (heap * loc)) (ho : heap) (res : loc) : bool :=
   match mres with
@@ -597,11 +666,139 @@ Definition check_cond (inplace : bool) (hints : list (string * list string)) (hb
            (kw : list (string * value)) (ha : heap) (res : loc) : bool :=
   check_result (length hb) (cond hints inplace 12 hb self kw) ha res.
 
+(* the implementation refused the call with one of the refusals the model knows (keyword that is no mutable / conditioning
+   variable / parameter name; mutable variable that is not a conditioning variable; Posterior with a likelihood of several
+   parameters; parameters without a prior): the model must refuse too *)
+Definition check_refused (inplace : bool) (hints : list (string * list string)) (hb : heap) (self : loc)
+           (kw : list (string * value)) : bool :=
+  match cond hints inplace 12 hb self kw with None => true | Some _ => false end.
+
 Definition check_tolik (hints : list (string * list string)) (hb : heap) (self : loc) (data : value) (ha : heap) (res : loc) : bool :=
   check_result (length hb) (Some (to_likelihood hints hb self data (name_of 50 hb self))) ha res.
 
 Definition check_apply (hb : heap) (m d : loc) (ha : heap) (res : loc) : bool :=
   check_result (length hb) (model_apply hb m d) ha res.
+
+(* =====================================================================================================
+   Geometry in the denotation, and the write footprint of evaluation operations
+   ===================================================================================================== *)
+
+(* `plain o`: certainly no unresolved parameter -- no callable-valued field, no reference other than the geometry, the
+   original, the scratch Gaussian; no None among the fields except the ones that are never parameters.  (Decided on the
+   non-cache fields only, so that writing a cache never changes it.)  For such an object the dimension inferred from the
+   parameters can never change, so an unset default geometry and the lazily inferred one are interchangeable. *)
+Definition none_ok (f : string) : bool :=
+  mem_str f ["_FD_epsilon"; "_original_density"; "is_symmetric"; "_name"; "_cov"; "axis_labels"; "_preset"].
+Definition ref_ok (f : string) : bool := mem_str f ["_geometry"; "_original_density"; "_Gaussian"].
+Definition plain_field (fv : string * value) : bool :=
+  is_cache (fst fv) ||
+  match snd fv with
+  | VClo _ _ => false
+  | VRef _ => ref_ok (fst fv)
+  | VList _ => false
+  | VNone => none_ok (fst fv)
+  | _ => true
+  end.
+Definition plain (o : obj) : bool := forallb plain_field o.
+
+Definition not_geometry (fv : string * value) : bool := negb (str_eqb (fst fv) "_geometry").
+
+(* the geometry slot is dropped from the reading exactly when it is a default geometry of a plain object *)
+Definition droppable (h : heap) (o : obj) : bool :=
+  negb (is_scratch o) && plain o &&
+  match getf o "_geometry" with Some (VRef g) => default_geom_at h g | _ => false end.
+Definition norm_obj (h : heap) (o : obj) : obj :=
+  if droppable h o then filter not_geometry (sem_obj o) else sem_obj o.
+
+Fixpoint den_g (fuel : nat) (h : heap) (l : loc) : view :=
+  match fuel with
+  | O => VwCut
+  | S k =>
+    match get h l with
+    | None => VwCut
+    | Some o => VwO (map (fun fv => (fst fv, match snd fv with
+                                              | VRef l' => den_g k h l'
+                                              | VList ls => VwL (map (den_g k h) ls)
+                                              | v => VwV v end)) (norm_obj h o))
+    end
+  end.
+
+(* --- the getters an evaluation (logd, gradient, sample, dim, repr, a sampler run) may run on ANY object it reaches --- *)
+
+(* Distribution.get_mutable_variables: caches the list *)
+Definition mutable_vars_getter (h : heap) (l : loc) (vars : list string) : heap :=
+  match getattr h l "_mutable_vars" with Some _ => h | None => setattr h l "_mutable_vars" (VStrs vars) end.
+
+(* one getter effect / a sequence of them: the write footprint of every evaluation operation *)
+Inductive touch_op :=
+| TGeom (l : loc) (dim : option value)
+| TVars (l : loc) (vars : list string)
+| TSync (l : loc).
+Definition touch1 (h : heap) (t : touch_op) : heap :=
+  match t with
+  | TGeom l d => geometry_getter h l d
+  | TVars l vs => mutable_vars_getter h l vs
+  | TSync l => lognormal_sync h l
+  end.
+Definition touch (h : heap) (ts : list touch_op) : heap := fold_left touch1 ts h.
+
+(* side conditions under which a getter effect is invisible (the complement is the finding on lazily cached geometry) *)
+Definition touch_ok (h : heap) (t : touch_op) : bool :=
+  match t with
+  | TGeom l (Some _) =>
+    match get h l with
+    | Some o => match getf o "_geometry" with
+                | Some (VRef g) => negb (unset_geom_at h g) || (negb (is_scratch o) && plain o)
+                | _ => true end
+    | None => true end
+  | TGeom _ None => true
+  | TVars _ _ => true
+  | TSync l =>
+    match get h l with
+    | Some o => match getf o "_Gaussian" with
+                | Some (VRef g) => match get h g with Some og => is_scratch og | None => true end
+                | _ => true end
+    | None => true end
+  end.
+
+(* --- executable frame checks on observed transitions, with geometry --- *)
+Fixpoint frame_objs_g (inplace : bool) (h h' : heap) (hh hh' : heap) : bool :=
+  match hh, hh' with
+  | [], _ => true
+  | o :: r, o' :: r' => obj_eqb_upto inplace (norm_obj h o) (norm_obj h' o') && frame_objs_g inplace h h' r r'
+  | _ :: _, [] => false
+  end.
+Definition closed_g_b (h : heap) : bool :=
+  forallb (fun o => forallb (fun fv => refs_ok (length h) (snd fv)) (sem_obj o)) h.
+(* strict: the hypothesis of the frame theorem C11_frame_g *)
+Definition check_frame_g (inplace : bool) (h h' : heap) : bool :=
+  frame_objs_g inplace h h' h h' && closed_g_b h && closed_g_b h'.
+
+(* faithful to the code as it stands: additionally the lazy step of Distribution.geometry may happen on an object that is
+   NOT plain (a conditional original): its slot moves from an unset default geometry to a new, set default geometry *)
+Definition lazy_geometry_step (h h' : heap) (o o' : obj) : bool :=
+  match getf o "_geometry", getf o' "_geometry" with
+  | Some (VRef g), Some (VRef g') =>
+    unset_geom_at h g && default_geom_at h' g' && negb (unset_geom_at h' g') && Nat.leb (length h) g'
+    && obj_eqb (filter not_geometry (sem_obj o)) (filter not_geometry (sem_obj o'))
+  | _, _ => false
+  end.
+Fixpoint frame_objs_code (inplace : bool) (h h' : heap) (hh hh' : heap) : bool :=
+  match hh, hh' with
+  | [], _ => true
+  | o :: r, o' :: r' => (obj_eqb_upto inplace (norm_obj h o) (norm_obj h' o') || lazy_geometry_step h h' o o')
+                        && frame_objs_code inplace h h' r r'
+  | _ :: _, [] => false
+  end.
+Definition check_frame_code (inplace : bool) (h h' : heap) : bool :=
+  frame_objs_code inplace h h' h h' && closed_g_b h && closed_g_b h'.
+
+(* evaluation operations (logd / gradient / sample / dim, repr / sampler runs): the observed transition must lie inside the
+   modelled footprint -- old objects change only by getter effects, and every object allocated and still reachable is a
+   default geometry *)
+Definition check_eval (inplace : bool) (h h' : heap) : bool :=
+  check_frame_code inplace h h' &&
+  forallb (fun o => String.prefix "_DefaultGeometry" (class_of o)) (skipn (length h) h').
 
 (* =====================================================================================================
    The translator's facts (harness/tr_writes.py -> coq/gen/Gen_C11.v): every statement of the anchored files that can
@@ -633,7 +830,7 @@ Definition writes_accounted (table extracted : list write_fact) : bool :=
 Definition C11_accounted : list write_fact := [
   (* cache fields the denotation does not read (is_cache), or lazily computed values equal to what a read would compute *)
   ("Density.name", "self-attr", "_name");                                   (* name inference from the Python stack: outside every model *)
-  ("Distribution.geometry", "self-attr", "geometry");                       (* lazy default geometry: `_geometry` slot, is_cache *)
+  ("Distribution.geometry", "self-attr", "geometry");                       (* lazy default geometry: geometry_getter, norm_obj *)
   ("Distribution.geometry", "alias-attr", "self._geometry._variable_name"); (* re-synchronised with _name on every read, is_cache *)
   ("Distribution.get_mutable_variables", "self-attr", "_mutable_vars");     (* is_cache *)
   ("Gaussian.compute_cov", "self-attr", "_cov");                            (* only by compute_cov()/cdf(): value-preserving expansion *)
@@ -684,3 +881,8 @@ Fixpoint cond_seq (hints : list (string * list string)) (inplace : bool) (fuel :
                     | Some (h', _) => cond_seq hints inplace fuel h' r
                     | None => None end
   end.
+
+(* strict variant of check_eval (hypothesis of C11_frame_g + only default geometries allocated) *)
+Definition check_eval_g (inplace : bool) (h h' : heap) : bool :=
+  check_frame_g inplace h h' &&
+  forallb (fun o => String.prefix "_DefaultGeometry" (class_of o)) (skipn (length h) h').
